@@ -24,6 +24,14 @@ fn feed(d: &mut StreamDecoder, bytes: &[u8; 8], from: usize, to: usize) {
     std::mem::forget(r);
 }
 
+/// Stub for MessageBuffer::try_new (the flatbuffers verifier). In these harnesses the input ends exactly
+/// after the prefix, so by the contract no message is ever assembled; the stub makes any such attempt an
+/// Err, which `feed` turns into a harness failure (it asserts Ok(None)). It only removes code that the
+/// contract says is unreachable, and fails loudly if that is wrong.
+fn stub_no_message(_buf: Buffer) -> Result<MessageBuffer, ArrowError> {
+    Err(ArrowError::IpcError(String::new()))
+}
+
 // Contract (C14): the 4/8-byte message prefix of the IPC stream format is assembled identically for every
 // way of cutting it into chunks. Prefix = continuation marker FF FF FF FF followed by a little-endian u32
 // metadata length s (all 2^32 values symbolic). For the cut points of the instance (chunk boundaries
@@ -32,13 +40,15 @@ fn feed(d: &mut StreamDecoder, bytes: &[u8; 8], from: usize, to: usize) {
 // marker), has consumed every byte, produced no batch and no error; finish() then succeeds iff s == 0.
 // Since every instance is compared with the same closed-form result, all chunkings agree with each other
 // and with the one-shot read. The prefix logic is reached without any flatbuffer message (the last chunk
-// ends exactly after the prefix). Cut points are concrete per instance: with symbolic cut points CBMC
+// ends exactly after the prefix). Stubs: alloc::fmt::format; MessageBuffer::try_new (see stub_no_message).
+// Cut points are concrete per instance: with symbolic cut points CBMC
 // cannot exclude that bytes are left over and has to encode the flatbuffer verifier (measured: timeout 400 s).
 macro_rules! stream_prefix_continuation {
     ($name:ident, $cuts:expr) => {
         #[kani::proof]
         #[kani::unwind(10)]
         #[kani::stub(alloc::fmt::format, stub_format)]
+        #[kani::stub(crate::convert::MessageBuffer::try_new, stub_no_message)]
         fn $name() {
             let s: [u8; 4] = kani::any();
             let bytes = [0xFF, 0xFF, 0xFF, 0xFF, s[0], s[1], s[2], s[3]];
@@ -68,13 +78,13 @@ macro_rules! stream_prefix_continuation {
         }
     };
 }
-// @unit name=stream_prefix_cont_oneshot props=C14 kind=bounded bound=chunking=[8]_all_lengths fns=StreamDecoder::decode,StreamDecoder::finish timeout=900 mem=4 tier=thorough note=not_confirmed_at_checkpoint
+// @unit name=stream_prefix_cont_oneshot props=C14 kind=bounded bound=chunking=[8]_all_lengths fns=StreamDecoder::decode,StreamDecoder::finish timeout=900 mem=4 tier=thorough note=not_confirmed_not_run
 stream_prefix_continuation!(stream_prefix_cont_oneshot, [8usize]);
-// @unit name=stream_prefix_cont_bytewise props=C14 kind=bounded bound=chunking=one_byte_at_a_time_all_lengths fns=StreamDecoder::decode,StreamDecoder::finish timeout=900 mem=4 tier=thorough note=not_confirmed_at_checkpoint
+// @unit name=stream_prefix_cont_bytewise props=C14 kind=bounded bound=chunking=one_byte_at_a_time_all_lengths fns=StreamDecoder::decode,StreamDecoder::finish timeout=900 mem=4 tier=thorough note=not_confirmed_killed_or_failed_see_report
 stream_prefix_continuation!(stream_prefix_cont_bytewise, [1usize, 2, 3, 4, 5, 6, 7, 8]);
-// @unit name=stream_prefix_cont_3_5 props=C14 kind=bounded bound=chunking=[3,5,8]_all_lengths fns=StreamDecoder::decode,StreamDecoder::finish timeout=900 mem=4 tier=thorough note=not_confirmed_at_checkpoint
+// @unit name=stream_prefix_cont_3_5 props=C14 kind=bounded bound=chunking=[3,5,8]_all_lengths fns=StreamDecoder::decode,StreamDecoder::finish timeout=900 mem=4 tier=thorough note=not_confirmed_killed_or_failed_see_report
 stream_prefix_continuation!(stream_prefix_cont_3_5, [3usize, 5, 8]);
-// @unit name=stream_prefix_cont_0_4_4 props=C14 kind=bounded bound=chunking=[0,4,4,8]_with_empty_chunks_all_lengths fns=StreamDecoder::decode,StreamDecoder::finish timeout=900 mem=4 tier=thorough note=not_confirmed_at_checkpoint
+// @unit name=stream_prefix_cont_0_4_4 props=C14 kind=bounded bound=chunking=[0,4,4,8]_with_empty_chunks_all_lengths fns=StreamDecoder::decode,StreamDecoder::finish timeout=900 mem=4 tier=thorough note=not_confirmed_not_run
 stream_prefix_continuation!(stream_prefix_cont_0_4_4, [0usize, 4, 4, 8]);
 
 // Contract (C14, C18): legacy prefix (pre-0.15 streams: no continuation marker): 4 bytes s != FF FF FF FF
@@ -86,6 +96,7 @@ macro_rules! stream_prefix_legacy {
         #[kani::proof]
         #[kani::unwind(10)]
         #[kani::stub(alloc::fmt::format, stub_format)]
+        #[kani::stub(crate::convert::MessageBuffer::try_new, stub_no_message)]
         fn $name() {
             const CUT: usize = $cut;
             let s: [u8; 4] = kani::any();
@@ -109,9 +120,9 @@ macro_rules! stream_prefix_legacy {
         }
     };
 }
-// @unit name=stream_prefix_legacy_cut0 props=C14,C18 kind=bounded bound=chunking=[0,4]_all_lengths fns=StreamDecoder::decode,StreamDecoder::finish timeout=900 mem=4 tier=thorough note=not_confirmed_at_checkpoint
+// @unit name=stream_prefix_legacy_cut0 props=C14,C18 kind=bounded bound=chunking=[0,4]_all_lengths fns=StreamDecoder::decode,StreamDecoder::finish timeout=900 mem=4 tier=thorough note=not_confirmed_not_run
 stream_prefix_legacy!(stream_prefix_legacy_cut0, 0);
-// @unit name=stream_prefix_legacy_cut1 props=C14,C18 kind=bounded bound=chunking=[1,4]_all_lengths fns=StreamDecoder::decode,StreamDecoder::finish timeout=900 mem=4 tier=thorough note=not_confirmed_at_checkpoint
+// @unit name=stream_prefix_legacy_cut1 props=C14,C18 kind=bounded bound=chunking=[1,4]_all_lengths fns=StreamDecoder::decode,StreamDecoder::finish timeout=900 mem=4 tier=thorough note=not_confirmed_not_finished
 stream_prefix_legacy!(stream_prefix_legacy_cut1, 1);
-// @unit name=stream_prefix_legacy_cut3 props=C14,C18 kind=bounded bound=chunking=[3,4]_all_lengths fns=StreamDecoder::decode,StreamDecoder::finish timeout=900 mem=4 tier=thorough note=not_confirmed_at_checkpoint
+// @unit name=stream_prefix_legacy_cut3 props=C14,C18 kind=bounded bound=chunking=[3,4]_all_lengths fns=StreamDecoder::decode,StreamDecoder::finish timeout=900 mem=4 tier=thorough note=not_confirmed_not_run
 stream_prefix_legacy!(stream_prefix_legacy_cut3, 3);
